@@ -112,7 +112,7 @@ func cmdCheck(argv []string) int {
 			}
 		}
 	}
-	if len(specs) == 0 && nLem == 0 {
+	if len(specs) == 0 && nLem == 0 && *prop != "C06" {
 		fmt.Fprintf(os.Stderr, "no functions under contract for property %s\n", *prop)
 		return 2
 	}
@@ -138,6 +138,11 @@ func cmdCheck(argv []string) int {
 			return 2
 		}
 		extraReps = sr
+	}
+	if *prop == "C06" && *only == "" {
+		dr, dres := determinismCheck(l, *prop)
+		extraReps = append(extraReps, dr...)
+		results = append(results, dres...)
 	}
 	if *prop == "C05" && *only == "" {
 		extraReps = append(extraReps, typestateCheck(l, *prop)...)
